@@ -42,7 +42,7 @@ func c07Oracle(c c07Case, r *advResult, k *verifkit.Kit) error {
 	start, end := advEpochs(r)
 	_ = start
 	if !sc.NoStop && !r.Returned {
-		return verifkit.Violf("C07/run-does-not-return", "Run did not return within 30 s of the stop\n%s", tl())
+		return verifkit.Violf("C07/run-does-not-return", "Run did not return within %v of the stop\n%s", time.Duration(sc.WaitNS), tl())
 	}
 	// unicast-only never transmits to a multicast destination
 	if sc.Cfg.UnicastOnly {
@@ -266,6 +266,12 @@ func c07Prop(t *testing.T, k *verifkit.Kit) func(c c07Case) error {
 		}
 		atomic.StoreInt64(&vkForcedDraw, c.ForcedDraw)
 		defer atomic.StoreInt64(&vkForcedDraw, -1)
+		if c.Sc.WaitNS == 0 {
+			c.Sc.WaitNS = int64(30 * time.Second)
+			for _, l := range c.Sc.Lat {
+				c.Sc.WaitNS += 4 * l.NS // (the harness's patience with slow transmissions, not a verdict)
+			}
+		}
 		r := runAdvertiser(t, c.Sc, nil)
 		if r.W == nil {
 			return fmt.Errorf("verif: world not created: %v", r.Panic)
@@ -337,7 +343,12 @@ func c07Gen(t *rapid.T) c07Case {
 			N: rapid.IntRange(0, 6).Draw(t, "failn"), Err: "syscall", NS: rapid.SampledFrom([]int64{0, int64(time.Millisecond)}).Draw(t, "faillat")})
 	}
 	if rapid.IntRange(0, 3).Draw(t, "latency") == 0 {
-		sc.Lat = append(sc.Lat, latRule{Dst: "any", N: -1, NS: rapid.Int64Range(0, int64(50*time.Millisecond)).Draw(t, "lat")})
+		lat := rapid.Int64Range(0, int64(50*time.Millisecond)).Draw(t, "lat")
+		if rapid.IntRange(0, 3).Draw(t, "latlong") == 0 {
+			// nothing bounds a transmission: beyond MAX_RA_DELAY_TIME, beyond MIN_DELAY_BETWEEN_RAS, long enough to stack
+			lat = rapid.SampledFrom([]int64{499999999, 500000000, 600 * int64(time.Millisecond), 3 * s, 3*s + 1, 20 * s}).Draw(t, "latv")
+		}
+		sc.Lat = append(sc.Lat, latRule{Dst: "any", N: -1, NS: lat})
 	}
 	forced := int64(-1)
 	if rapid.IntRange(0, 3).Draw(t, "forced") == 0 {
